@@ -104,9 +104,9 @@ fn run_case(kind: &str, idx: u64, rng: &mut Rng, mon: &mut Mon, _tier: Tier) {
     }
     let robot = gen_robot(rng, idx, RobotMode::All, 0.15);
     let rp = robot.rp;
-    let qclass = rng.usize(5);
+    let qclass = rng.usize(6);
     // class 4: exact multiples of a right angle (flange orientations that are exact half / quarter turns)
-    let q = if qclass == 4 { std::array::from_fn(|_| rng.int(-4, 4) as f64 * std::f64::consts::FRAC_PI_2) } else { joints_class(rng, qclass) };
+    let q = if qclass == 5 { joints_resting(rng, std::f64::consts::PI) } else if qclass == 4 { std::array::from_fn(|_| rng.int(-4, 4) as f64 * std::f64::consts::FRAC_PI_2) } else { joints_class(rng, qclass) };
     let kin = OPWKinematics::new(to_params(&rp));
     let reach = rp.reach();
     // forward() adds q2+q3+psi3 before taking the sine: for |q| >> 2pi that sum is rounded at
